@@ -3,6 +3,7 @@ package main
 // Calls: builtins, callee contracts (module, interface-level, external/assumed), inlining, opaque calls.
 
 import (
+	"go/ast"
 	"fmt"
 	"go/types"
 	"strings"
@@ -282,6 +283,10 @@ func (fr *frame) applyContract(b *ssa.BasicBlock, st *state, ins ssa.Instruction
 		}
 		for i := range args {
 			if i < len(names) {
+				if callee != nil && len(ct.Names) == 0 && i >= len(callee.Params) && i-len(callee.Params) < len(callee.FreeVars) {
+					bindFreeVar(c, tr, callee.FreeVars[i-len(callee.Params)], args[i], cur, old)
+					continue
+				}
 				tr.vars[names[i]] = tvar{args[i], vtype{c.sortOf(argTypes[i]), argTypes[i]}}
 			}
 		}
@@ -602,10 +607,56 @@ func (fr *frame) opaque(b *ssa.BasicBlock, st *state, ins ssa.Instruction, v ssa
 
 func (fr *frame) dynamicCall(b *ssa.BasicBlock, st *state, ins ssa.Instruction, v ssa.Value, call *ssa.CallCommon, args []string) {
 	vc := fr.vc
+	// closed world (funcvals.go): the callee is one of the module functions of this signature whose value is taken
+	// somewhere; the call has the union of their effects. A candidate's precondition cannot be established here (its
+	// captured variables are not known), so candidates with a precondition in this layer leave the call unresolved.
+	if sig, ok := call.Value.Type().Underlying().(*types.Signature); ok {
+		if cands, complete := vc.w.funcValueCandidates(sig); complete && len(cands) > 0 {
+			ms := newModset()
+			okAll := true
+			var names []string
+			for _, f := range cands {
+				names = append(names, f.String())
+				if ct := vc.w.db.Contracts[f.String()]; ct != nil {
+					for _, cl := range ct.clausesFor(vc.layer) {
+						if cl.Kind == "requires" {
+							okAll = false
+						}
+					}
+				}
+				if s, ok := vc.ma.sets[f]; ok {
+					ms.merge(retargetAny(s))
+				}
+			}
+			if okAll {
+				vc.assumed["closed world: the function value called at "+vc.pos(ins.Pos())+" is one of "+strings.Join(names, ", ")+" (the module functions of that signature used as values); union of their effects, termination and absence of panics not modelled"] = true
+				pre := st.clone()
+				vc.havoc(st, pre, ms, "call of function value "+call.Value.Name(), nil, nil)
+				if v != nil {
+					fr.havocVal(v, st)
+				}
+				return
+			}
+		}
+	}
 	vc.c.unsup("call of an unknown function value " + call.Value.Name() + " at " + vc.pos(ins.Pos()))
 	if v != nil {
 		fr.havocVal(v, st)
 	}
+}
+
+// retargetAny: a summary whose effects are stated relative to the callee's parameters, restated for a caller that
+// does not know the callee: every rooted shape becomes "any object".
+func retargetAny(s *modset) *modset {
+	out := newModset()
+	out.merge(s)
+	for _, sh := range out.real {
+		if len(sh.roots) > 0 {
+			sh.any = true
+			sh.roots = map[ssa.Value]bool{}
+		}
+	}
+	return out
 }
 
 func (fr *frame) doSpawn(b *ssa.BasicBlock, st *state, x *ssa.Go) {
@@ -825,11 +876,32 @@ func (fr *frame) callsiteObls(b *ssa.BasicBlock, st *state, ins ssa.Instruction,
 		name = ifaceMethodKey(call.Value.Type(), call.Method.Name())
 	} else if f := call.StaticCallee(); f != nil {
 		name = f.String()
+	} else if _, isB := call.Value.(*ssa.Builtin); !isB {
+		// a call through a function value is addressed by the name of the variable holding it
+		name = call.Value.Name()
+		for _, d := range fr.debug {
+			for _, r := range d {
+				if r.X == call.Value && !r.IsAddr {
+					if id, ok := r.Expr.(*ast.Ident); ok {
+						name = id.Name
+					}
+				}
+			}
+		}
 	} else {
 		return
 	}
 	short := name
-	if i := strings.LastIndex(short, "/"); i >= 0 {
+	if strings.HasPrefix(short, "(") {
+		// (*mod/path/pkg.T).m  ->  (*pkg.T).m
+		if i := strings.LastIndex(short, "/"); i >= 0 {
+			j := strings.IndexAny(short, "*(")
+			for j+1 < len(short) && (short[j+1] == '*' || short[j+1] == '(') {
+				j++
+			}
+			short = short[:j+1] + short[i+1:]
+		}
+	} else if i := strings.LastIndex(short, "/"); i >= 0 {
 		short = short[i+1:]
 	}
 	vc.siteCount[short]++
@@ -839,7 +911,7 @@ func (fr *frame) callsiteObls(b *ssa.BasicBlock, st *state, ins ssa.Instruction,
 			continue
 		}
 		vc.matchedSites[cl] = true
-		tr := fr.loopTrans(&loopInfo{header: b, body: map[*ssa.BasicBlock]bool{}}, st, nil)
+		tr := fr.loopTrans(&loopInfo{header: b, body: map[*ssa.BasicBlock]bool{}, before: ins}, st, nil)
 		// a parameter name denotes the parameter's entry value, also when the call's block merges later assignments
 		// to it (the current value is available as argK where it is passed on)
 		for name, v := range vc.contractTrans(fr.ct, fr.fn, nil, st, vc.entry).vars {
